@@ -1,4 +1,5 @@
 import TxV.Proofs.Transformers
+import TxV.Model.TransformersProto  -- (the driver's front end; imported only so that building this module builds it)
 /-!
 # C18 — method transformers and connectors implement their documented function
 
@@ -24,62 +25,90 @@ theorem c18_connect (i : ConnIn) :
   unfold connect
   cases i.r1 <;> cases i.r2 <;> simp
 
--- OBLIGATION c18_crossbar_transfers : CrossbarConnectTrans: every running pair is a pair of the crossbar whose two methods are ready, and each of the two receives the other's result (every size, every scheduling order, every valuation)
-theorem c18_crossbar_transfers (order : List (Nat × Nat)) (i : XIn) (p : Nat × Nat)
-    (hp : p ∈ running order i) :
+-- OBLIGATION c18_connect_valid : ConnectTrans whose methods validate their arguments: both are called iff both are ready and each accepts (validate_arguments) the other's result - i.e. exactly when both can run - and then each receives the other's result (every validator pair)
+theorem c18_connect_valid (v1 v2 : Nat → Bool) (i : ConnIn) :
+    ((connectV v1 v2 i).m1.isSome ↔ (i.r1 = true ∧ i.r2 = true ∧ v1 i.d2 = true ∧ v2 i.d1 = true)) ∧
+    ((connectV v1 v2 i).m2.isSome ↔ (connectV v1 v2 i).m1.isSome) ∧
+    (i.r1 = true → i.r2 = true → v1 i.d2 = true → v2 i.d1 = true →
+      (connectV v1 v2 i).m1 = some i.d2 ∧ (connectV v1 v2 i).m2 = some i.d1) := by
+  unfold connectV connect
+  cases i.r1 <;> cases i.r2 <;> cases v1 i.d2 <;> cases v2 i.d1 <;> simp
+
+-- OBLIGATION c18_crossbar_transfers : CrossbarConnectTrans: every running pair is a pair of the crossbar whose two methods are ready and accept each other's result (validate_arguments; trivially true without validators), and each of the two receives the other's result (every size, every scheduling order, every valuation, every validators)
+theorem c18_crossbar_transfers (v1 v2 : Nat → Bool) (order : List (Nat × Nat)) (i : XIn) (p : Nat × Nat)
+    (hp : p ∈ running v1 v2 order i) :
     p ∈ order ∧ readyAt i.t1 p.1 = true ∧ readyAt i.t2 p.2 = true ∧
-    (∃ v, resultAt i.t2 p.2 = some v ∧ xArg1 order i p.1 = some v) ∧
-    (∃ v, resultAt i.t1 p.1 = some v ∧ xArg2 order i p.2 = some v) := by
-  obtain ⟨ho, h1, h2⟩ := running_mem order i p hp
-  have hn := running_noClash order i
-  refine ⟨ho, h1, h2, ?_, ?_⟩
-  · obtain ⟨v, hv, _⟩ := readyAt_result _ _ h2
-    exact ⟨v, hv, by simp [xArg1, find_fst_of_noClash _ hn p hp, hv]⟩
-  · obtain ⟨v, hv, _⟩ := readyAt_result _ _ h1
-    exact ⟨v, hv, by simp [xArg2, find_snd_of_noClash _ hn p hp, hv]⟩
+    (∃ v, resultAt i.t2 p.2 = some v ∧ v1 v = true ∧ xArg1 v1 v2 order i p.1 = some v) ∧
+    (∃ v, resultAt i.t1 p.1 = some v ∧ v2 v = true ∧ xArg2 v1 v2 order i p.2 = some v) := by
+  obtain ⟨ho, hr⟩ := running_mem v1 v2 order i p hp
+  obtain ⟨h1, h2, ⟨x, hx, hvx⟩, ⟨y, hy, hvy⟩⟩ := (pairRunnable_iff v1 v2 i p).1 hr
+  have hn := running_noClash v1 v2 order i
+  refine ⟨ho, h1, h2, ⟨x, hx, hvx, ?_⟩, ⟨y, hy, hvy, ?_⟩⟩
+  · simp [xArg1, find_fst_of_noClash _ hn p hp, hx]
+  · simp [xArg2, find_snd_of_noClash _ hn p hp, hy]
 
 -- OBLIGATION c18_crossbar_matching : CrossbarConnectTrans: no method serves two running pairs (the running pairs are pairwise disjoint in both coordinates)
-theorem c18_crossbar_matching (order : List (Nat × Nat)) (i : XIn) :
-    (running order i).Pairwise (fun p q => p.1 ≠ q.1 ∧ p.2 ≠ q.2) :=
-  running_noClash order i
+theorem c18_crossbar_matching (v1 v2 : Nat → Bool) (order : List (Nat × Nat)) (i : XIn) :
+    (running v1 v2 order i).Pairwise (fun p q => p.1 ≠ q.1 ∧ p.2 ≠ q.2) :=
+  running_noClash v1 v2 order i
 
--- OBLIGATION c18_crossbar_exact : CrossbarConnectTrans: a pair whose two methods are ready is either running or one of its methods is taken by a running pair (nothing that can run is left idle); a method is called iff it belongs to a running pair
-theorem c18_crossbar_exact (order : List (Nat × Nat)) (i : XIn) :
-    (∀ p ∈ order, readyAt i.t1 p.1 = true → readyAt i.t2 p.2 = true →
-      ∃ q ∈ running order i, q.1 = p.1 ∨ q.2 = p.2) ∧
-    (∀ a, (xArg1 order i a).isSome ↔ ∃ q ∈ running order i, q.1 = a) ∧
-    (∀ b, (xArg2 order i b).isSome ↔ ∃ q ∈ running order i, q.2 = b) := by
+-- OBLIGATION c18_crossbar_exact : CrossbarConnectTrans: a pair that can run (both methods ready and accepting each other's result) is either running or one of its methods is taken by a running pair (nothing that can run is left idle); a method is called iff it belongs to a running pair
+theorem c18_crossbar_exact (v1 v2 : Nat → Bool) (order : List (Nat × Nat)) (i : XIn) :
+    (∀ p ∈ order, pairRunnable v1 v2 i p = true →
+      ∃ q ∈ running v1 v2 order i, q.1 = p.1 ∨ q.2 = p.2) ∧
+    (∀ a, (xArg1 v1 v2 order i a).isSome ↔ ∃ q ∈ running v1 v2 order i, q.1 = a) ∧
+    (∀ b, (xArg2 v1 v2 order i b).isSome ↔ ∃ q ∈ running v1 v2 order i, q.2 = b) := by
   refine ⟨?_, ?_, ?_⟩
-  · intro p hp h1 h2
-    have := grant_maximal i order [] p hp h1 h2
+  · intro p hp h1
+    have := grant_maximal _ order [] p hp h1
     rw [clash_true_iff] at this
     exact this
   · intro a
     constructor
     · intro h
       unfold xArg1 at h
-      cases hf : (running order i).find? (fun p => p.1 == a) with
+      cases hf : (running v1 v2 order i).find? (fun p => p.1 == a) with
       | none => simp [hf] at h
       | some q =>
         have hm := List.mem_of_find?_eq_some hf
         have hq := List.find?_some hf
         exact ⟨q, hm, by simpa using hq⟩
     · rintro ⟨q, hq, rfl⟩
-      obtain ⟨_, _, _, ⟨v, _, hv⟩, _⟩ := c18_crossbar_transfers order i q hq
+      obtain ⟨_, _, _, ⟨v, _, _, hv⟩, _⟩ := c18_crossbar_transfers v1 v2 order i q hq
       simp [hv]
   · intro b
     constructor
     · intro h
       unfold xArg2 at h
-      cases hf : (running order i).find? (fun p => p.2 == b) with
+      cases hf : (running v1 v2 order i).find? (fun p => p.2 == b) with
       | none => simp [hf] at h
       | some q =>
         have hm := List.mem_of_find?_eq_some hf
         have hq := List.find?_some hf
         exact ⟨q, hm, by simpa using hq⟩
     · rintro ⟨q, hq, rfl⟩
-      obtain ⟨_, _, _, _, ⟨v, _, hv⟩⟩ := c18_crossbar_transfers order i q hq
+      obtain ⟨_, _, _, _, ⟨v, _, _, hv⟩⟩ := c18_crossbar_transfers v1 v2 order i q hq
       simp [hv]
+
+-- OBLIGATION c18_validated : transformers whose target validates its arguments behave as with a target that is callable iff ready and accepting the argument it would receive: MethodMap executes iff called, target ready and valid(i_fun arg); plain MethodFilter iff target ready and (condition false or valid arg); MethodFilter(use_condition) iff condition false or (target ready and valid arg); product/try-product offer every target the call's argument
+theorem c18_validated (valid : Nat → Bool) (ifun ofun cond : Nat → Nat) (dflt : Nat) (i : UIn) (a : Nat)
+    (h : i.call = some a) :
+    ((mapVStep valid ifun ofun i).res.isSome ↔ (i.trdy = true ∧ valid (ifun a) = true)) ∧
+    ((filterVStep valid false cond dflt i).res.isSome ↔ (i.trdy = true ∧ (cond a = 0 ∨ valid a = true))) ∧
+    ((filterVStep valid true cond dflt i).res.isSome ↔ (cond a = 0 ∨ (i.trdy = true ∧ valid a = true))) ∧
+    ((filterVStep valid true cond dflt i).tcall.isSome ↔ (cond a ≠ 0 ∧ i.trdy = true ∧ valid a = true)) ∧
+    (∀ (j : PIn), j.call = some a → (validTgts valid j).tgts = j.tgts.map (fun t => (t.1 && valid a, t.2))) := by
+  refine ⟨?_, ?_, ?_, ?_, ?_⟩
+  · unfold mapVStep mapStep
+    cases ht : i.trdy <;> cases hv : valid (ifun a) <;> simp [h, hv]
+  · unfold filterVStep filterStep condHolds
+    by_cases hc : cond a = 0 <;> cases ht : i.trdy <;> cases hv : valid a <;> simp [h, hc, hv]
+  · unfold filterVStep filterStep condHolds
+    by_cases hc : cond a = 0 <;> cases ht : i.trdy <;> cases hv : valid a <;> simp [h, hc, hv]
+  · unfold filterVStep filterStep condHolds
+    by_cases hc : cond a = 0 <;> cases ht : i.trdy <;> cases hv : valid a <;> simp [h, hc, hv]
+  · intro j hj
+    simp [validTgts, hj]
 
 -- OBLIGATION c18_map : MethodMap: the method executes iff it is called and the target is ready; then the target is called with i_fun(arg) and the method returns o_fun(target result); otherwise the target is not called (every i_fun, o_fun)
 theorem c18_map (ifun ofun : Nat → Nat) (i : UIn) :
@@ -316,8 +345,14 @@ theorem c18_collector_step (order : List Nat) (s : CState) (i : CIn) :
 
 /-- non-vacuity: a crossbar valuation with two running pairs and a blocked ready pair -/
 example :
-    running [(0, 0), (0, 1), (1, 0), (1, 1)] { t1 := [(true, 13), (true, 14)], t2 := [(true, 5), (true, 6)] }
+    running (fun _ => true) (fun _ => true) [(0, 0), (0, 1), (1, 0), (1, 1)] { t1 := [(true, 13), (true, 14)], t2 := [(true, 5), (true, 6)] }
       = [(0, 0), (1, 1)] := by decide
+
+/-- non-vacuity: a receiver rejecting zero: pair (0,0) cannot run (methods2[0] would receive 0), (0,1) runs -/
+example :
+    running (fun _ => true) (fun x => x != 0) [(0, 0), (0, 1)] { t1 := [(true, 0)], t2 := [(true, 5), (false, 6)] } = [] ∧
+    running (fun x => x != 0) (fun _ => true) [(0, 0), (0, 1)] { t1 := [(true, 3)], t2 := [(true, 0), (true, 6)] } = [(0, 1)] := by
+  decide
 
 /-- non-vacuity: a collector history with buffering, forwarding and a blocked target -/
 example :
@@ -343,6 +378,8 @@ example :
 end TxV.Transformers
 
 #print axioms TxV.Transformers.c18_connect
+#print axioms TxV.Transformers.c18_connect_valid
+#print axioms TxV.Transformers.c18_validated
 #print axioms TxV.Transformers.c18_crossbar_transfers
 #print axioms TxV.Transformers.c18_crossbar_matching
 #print axioms TxV.Transformers.c18_crossbar_exact
